@@ -232,6 +232,59 @@ theorem mergeLoop_inv (fuel i : Nat) (parts : List Bytes) (chars : List Nat) (hn
       · exact ih _ _ _ hne hv
     · exact ⟨hne, hv⟩
 
+/-- cutting the header (parts before the first char) and the footer (parts after the last char)
+keeps the char indices valid -/
+theorem header_footer_valid (c0 : Nat) (rest : List Nat) (parts : List Bytes) (ov : Valid (c0 :: rest) parts.length) :
+    (∀ c ∈ c0 :: rest, c0 ≤ c) ∧
+    Valid ((c0 :: rest).map (· - c0)) (parts.drop c0).length ∧
+    (∀ c ∈ (c0 :: rest).map (· - c0), c ≤ ((c0 :: rest).map (· - c0)).getLast?.getD 0) ∧
+    Valid ((c0 :: rest).map (· - c0))
+      ((parts.drop c0).take (((c0 :: rest).map (· - c0)).getLast?.getD 0 + 1)).length := by
+  have hc0 : ∀ c ∈ c0 :: rest, c0 ≤ c := by
+    intro c hc
+    simp only [List.mem_cons] at hc
+    rcases hc with rfl | hc
+    · exact Nat.le_refl _
+    · exact Nat.le_of_lt ((List.pairwise_cons.mp ov.1).1 c hc)
+  have hv1 : Valid ((c0 :: rest).map (· - c0)) (parts.drop c0).length := by
+    refine ⟨?_, ?_⟩
+    · rw [List.pairwise_map]
+      refine ov.1.imp_of_mem ?_
+      intro a b ha hb hab
+      have := hc0 a ha
+      have := hc0 b hb
+      omega
+    · intro c hc
+      obtain ⟨y, hy, rfl⟩ := List.mem_map.mp hc
+      have := hc0 y hy
+      have := ov.2 y hy
+      rw [List.length_drop]
+      omega
+  have hlast : ∀ c ∈ (c0 :: rest).map (· - c0), c ≤ ((c0 :: rest).map (· - c0)).getLast?.getD 0 := by
+    intro c hc
+    generalize hl : (c0 :: rest).map (· - c0) = l at hc hv1
+    have hlne : l ≠ [] := by rw [← hl]; simp
+    rw [List.getLast?_eq_getLast hlne]
+    simp only [Option.getD_some]
+    obtain ⟨k, hk, rfl⟩ := List.mem_iff_getElem.mp hc
+    rw [List.getLast_eq_getElem]
+    rcases Nat.lt_or_ge k (l.length - 1) with hlt | hge
+    · exact Nat.le_of_lt ((List.pairwise_iff_getElem.mp hv1.1) k (l.length - 1) hk (by omega) hlt)
+    · have : k = l.length - 1 := by omega
+      subst this; exact Nat.le_refl _
+  refine ⟨hc0, hv1, hlast, hv1.1, ?_⟩
+  intro c hc
+  have h1 := hlast c hc
+  have hmem : ((c0 :: rest).map (· - c0)).getLast?.getD 0 ∈ (c0 :: rest).map (· - c0) := by
+    generalize hl : (c0 :: rest).map (· - c0) = l
+    have hlne : l ≠ [] := by rw [← hl]; simp
+    rw [List.getLast?_eq_getLast hlne]
+    simp only [Option.getD_some]
+    exact List.getLast_mem hlne
+  have h2 := hv1.2 _ hmem
+  rw [List.length_take]
+  omega
+
 /-- the JS-string splitter meets the full contract: round trip, non-empty parts, one flag each -/
 theorem splitJs_ok : Load.SplitOK splitJs := by
   intro d s h
@@ -254,54 +307,339 @@ theorem splitJs_ok : Load.SplitOK splitJs := by
       simp only [Except.ok.injEq] at h
       subst h
       simp only
-      -- after cutting the header and the footer the char indices are still valid
-      have hc0 : ∀ c ∈ c0 :: rest, c0 ≤ c := by
-        intro c hc
-        simp only [List.mem_cons] at hc
-        rcases hc with rfl | hc
-        · exact Nat.le_refl _
-        · exact Nat.le_of_lt ((List.pairwise_cons.mp ov.1).1 c hc)
-      have hv1 : Valid ((c0 :: rest).map (· - c0)) (parts.drop c0).length := by
-        refine ⟨?_, ?_⟩
-        · rw [List.pairwise_map]
-          refine ov.1.imp_of_mem ?_
-          intro a b ha hb hab
-          have := hc0 a ha
-          have := hc0 b hb
+      obtain ⟨-, -, -, hv2⟩ := header_footer_valid c0 rest parts ov
+      exact (mergeLoop_inv _ 0 _ _ (ne_take _ _ (ne_drop _ _ one)) hv2).1
+
+/-! ### the parts indexed by `chars` satisfy any predicate that holds of in-string tokens -/
+
+/-- `T` holds of every part a char index points to -/
+def CharsSat (T : Bytes → Prop) (chars : List Nat) (parts : List Bytes) : Prop :=
+  ∀ c ∈ chars, T ((parts[c]?).getD [])
+
+theorem charsSat_append (T : Bytes → Prop) (chars : List Nat) (parts extra : List Bytes)
+    (hv : Valid chars parts.length) (h : CharsSat T chars parts) : CharsSat T chars (parts ++ extra) := by
+  intro c hc
+  rw [List.getElem?_append_left (hv.2 c hc)]
+  exact h c hc
+
+theorem scan_sat (T : Bytes → Prop) (hT : ∀ d : Bytes, tokLen d ≠ 0 → T (d.take (tokLen d)))
+    (fuel : Nat) (s : Scan) (hv : Valid s.chars s.parts.length) (h : CharsSat T s.chars s.parts) :
+    CharsSat T (scan fuel s).chars (scan fuel s).parts := by
+  induction fuel generalizing s with
+  | zero => exact h
+  | succ f ih =>
+    unfold scan
+    split
+    · simp only
+      split
+      · exact h
+      · rename_i hk
+        split
+        · apply ih
+          · simp only [List.length_append, List.length_singleton]
+            exact valid_mono _ _ _ hv (Nat.le_succ _)
+          · exact charsSat_append T _ _ _ hv h
+        · apply ih
+          · simp only [List.length_append, List.length_singleton]
+            exact valid_snoc _ _ hv
+          · intro c hc
+            rcases List.mem_append.mp hc with h1 | h1
+            · rw [List.getElem?_append_left (hv.2 c h1)]
+              exact h c h1
+            · simp only [List.mem_singleton] at h1
+              subst h1
+              simp only [List.getElem?_append_right (Nat.le_refl _), Nat.sub_self, List.getElem?_cons_zero, Option.getD_some]
+              exact hT _ hk
+    · split
+      · exact h
+      · apply ih
+        · simp only [List.length_append, List.length_singleton]
+          exact valid_mono _ _ _ hv (Nat.le_succ _)
+        · exact charsSat_append T _ _ _ hv h
+
+theorem outer_sat (T : Bytes → Prop) (hT : ∀ d : Bytes, tokLen d ≠ 0 → T (d.take (tokLen d)))
+    (fuel : Nat) (data : Bytes) (chars : List Nat) (parts : List Bytes) (cs : List Nat) (ps : List Bytes)
+    (hne : NE parts) (hv : Valid chars parts.length) (hs : CharsSat T chars parts)
+    (h : outer fuel data chars parts = .ok (cs, ps)) : CharsSat T cs ps := by
+  induction fuel generalizing data chars parts with
+  | zero => simp [outer] at h
+  | succ f ih =>
+    unfold outer at h
+    simp only at h
+    obtain ⟨sne, sv⟩ := scan_inv (data.length + 1) { rest := data, instr := none, chars := chars, parts := parts } hne hv
+    have ssat := scan_sat T hT (data.length + 1) { rest := data, instr := none, chars := chars, parts := parts } hv hs
+    generalize scan (data.length + 1) { rest := data, instr := none, chars := chars, parts := parts } = s at h sne sv ssat
+    have hparts : NE (if s.rest.isEmpty then s.parts else s.parts ++ [s.rest]) ∧
+        Valid s.chars (if s.rest.isEmpty then s.parts else s.parts ++ [s.rest]).length ∧
+        CharsSat T s.chars (if s.rest.isEmpty then s.parts else s.parts ++ [s.rest]) := by
+      split
+      · exact ⟨sne, sv, ssat⟩
+      · rename_i he
+        refine ⟨ne_append _ _ sne (ne_single _ (by intro h0; rw [h0] at he; simp at he)), ?_, charsSat_append T _ _ _ sv ssat⟩
+        simp only [List.length_append, List.length_singleton]
+        exact valid_mono _ _ _ sv (Nat.le_succ _)
+    generalize (if s.rest.isEmpty then s.parts else s.parts ++ [s.rest]) = parts' at h hparts
+    split at h
+    · injection h with h
+      injection h with h1 h2
+      subst h1; subst h2
+      exact hparts.2.2
+    · split at h
+      · exact absurd h (by simp)
+      · rename_i idx hidx
+        have hlt := rewindIdx_lt parts' s.chars _ idx hidx
+        apply ih _ _ _ (ne_take _ _ hparts.1) _ _ h
+        · refine ⟨hparts.2.1.1.filter _, ?_⟩
+          intro c hc
+          have := (List.mem_filter.mp hc).2
+          simp only [decide_eq_true_eq] at this
+          rw [List.length_take]
           omega
         · intro c hc
-          obtain ⟨y, hy, rfl⟩ := List.mem_map.mp hc
-          have := hc0 y hy
-          have := ov.2 y hy
-          rw [List.length_drop]
-          omega
-      -- every index is at most the last one
-      have hlast : ∀ c ∈ (c0 :: rest).map (· - c0), c ≤ ((c0 :: rest).map (· - c0)).getLast?.getD 0 := by
+          have hm := List.mem_filter.mp hc
+          have hci : c < idx := by simpa using hm.2
+          rw [List.getElem?_take_of_lt (by omega)]
+          exact hparts.2.2 c hm.1
+
+theorem mergeLoop_sat (T : Bytes → Prop) (fuel i : Nat) (parts : List Bytes) (chars : List Nat)
+    (hv : Valid chars parts.length) (hs : CharsSat T chars parts) :
+    CharsSat T (mergeLoop fuel i parts chars).2 (mergeLoop fuel i parts chars).1 := by
+  induction fuel generalizing i parts chars with
+  | zero => exact hs
+  | succ f ih =>
+    unfold mergeLoop
+    split
+    · rename_i hi
+      simp only
+      have e1 : chars.getD i 0 = chars[i] := by
+        rw [List.getD_eq_getElem?_getD, List.getElem?_eq_getElem (by omega)]; rfl
+      have e2 : chars.getD (i + 1) 0 = chars[i + 1] := by
+        rw [List.getD_eq_getElem?_getD, List.getElem?_eq_getElem hi]; rfl
+      have h12 : chars[i] < chars[i + 1] := (List.pairwise_iff_getElem.mp hv.1) i (i + 1) (by omega) hi (by omega)
+      have h2n : chars[i + 1] < parts.length := hv.2 _ (List.getElem_mem hi)
+      rw [e1, e2]
+      generalize hc1 : chars[i] = c1 at *
+      generalize hc2 : chars[i + 1] = c2 at *
+      split
+      · rename_i hgap
+        have hle := sorted_take_le chars hv.1 i (by omega)
+        have hge := sorted_drop_ge chars hv.1 i hi
+        rw [hc1] at hle
+        rw [hc2] at hge
+        have hv' : Valid (chars.take (i + 1) ++ (chars.drop (i + 1)).map (· - (c2 - c1 - 2)))
+            (parts.take (c1 + 1) ++ [((parts.drop (c1 + 1)).take (c2 - c1 - 1)).flatten] ++ parts.drop c2).length := by
+          have hnewlen : (parts.take (c1 + 1) ++ [((parts.drop (c1 + 1)).take (c2 - c1 - 1)).flatten] ++ parts.drop c2).length
+              = parts.length - (c2 - c1 - 2) := by
+            simp only [List.length_append, List.length_take, List.length_drop, List.length_singleton]
+            omega
+          rw [hnewlen]
+          refine ⟨?_, ?_⟩
+          · rw [List.pairwise_append]
+            refine ⟨hv.1.sublist (List.take_sublist _ _), ?_, ?_⟩
+            · rw [List.pairwise_map]
+              refine (hv.1.sublist (List.drop_sublist _ _)).imp_of_mem ?_
+              intro a b ha hb hab
+              have := hge a ha
+              have := hge b hb
+              omega
+            · intro a ha b hb
+              obtain ⟨y, hy, rfl⟩ := List.mem_map.mp hb
+              have := hle a ha
+              have := hge y hy
+              omega
+          · intro c hc
+            rcases List.mem_append.mp hc with h | h
+            · have := hle c h
+              omega
+            · obtain ⟨y, hy, rfl⟩ := List.mem_map.mp h
+              have := hge y hy
+              have := hv.2 y (List.mem_of_mem_drop hy)
+              omega
+        apply ih _ _ _ hv'
         intro c hc
-        generalize hl : (c0 :: rest).map (· - c0) = l at hc hv1
-        have hlne : l ≠ [] := by rw [← hl]; simp
-        rw [List.getLast?_eq_getLast hlne]
-        simp only [Option.getD_some]
-        obtain ⟨k, hk, rfl⟩ := List.mem_iff_getElem.mp hc
-        rw [List.getLast_eq_getElem]
-        rcases Nat.lt_or_ge k (l.length - 1) with hlt | hge
-        · exact Nat.le_of_lt ((List.pairwise_iff_getElem.mp hv1.1) k (l.length - 1) hk (by omega) hlt)
-        · have : k = l.length - 1 := by omega
-          subst this; exact Nat.le_refl _
-      have hv2 : Valid ((c0 :: rest).map (· - c0))
-          ((parts.drop c0).take (((c0 :: rest).map (· - c0)).getLast?.getD 0 + 1)).length := by
-        refine ⟨hv1.1, ?_⟩
+        rcases List.mem_append.mp hc with h | h
+        · -- an index up to c1: the part is in the untouched prefix
+          have hcle := hle c h
+          have hmem : c ∈ chars := List.mem_of_mem_take h
+          have : (parts.take (c1 + 1) ++ [((parts.drop (c1 + 1)).take (c2 - c1 - 1)).flatten] ++ parts.drop c2)[c]? = parts[c]? := by
+            rw [List.append_assoc, List.getElem?_append_left (by rw [List.length_take]; omega),
+              List.getElem?_take_of_lt (by omega)]
+          rw [this]
+          exact hs c hmem
+        · -- an index from c2 on: shifted down by the merged gap
+          obtain ⟨y, hy, rfl⟩ := List.mem_map.mp h
+          have hyge := hge y hy
+          have hmem : y ∈ chars := List.mem_of_mem_drop hy
+          have hylt := hv.2 y hmem
+          have : (parts.take (c1 + 1) ++ [((parts.drop (c1 + 1)).take (c2 - c1 - 1)).flatten] ++ parts.drop c2)[y - (c2 - c1 - 2)]?
+              = parts[y]? := by
+            have hl : (parts.take (c1 + 1) ++ [((parts.drop (c1 + 1)).take (c2 - c1 - 1)).flatten]).length = c1 + 2 := by
+              simp only [List.length_append, List.length_take, List.length_singleton]; omega
+            rw [List.getElem?_append_right (by rw [hl]; omega), hl, List.getElem?_drop]
+            congr 1; omega
+          rw [this]
+          exact hs y hmem
+      · exact ih _ _ _ hv hs
+    · exact hs
+
+/-- Every part flagged reducible by the JS-string splitter satisfies any predicate `T` that holds
+of the tokens the in-string scanner cuts off. -/
+theorem splitJs_sat (T : Bytes → Prop) (hT : ∀ d : Bytes, tokLen d ≠ 0 → T (d.take (tokLen d)))
+    (d : Bytes) (s : Load.Split) (h : splitJs d = .ok s) :
+    ∀ x ∈ s.parts.zip s.reducible, x.2 = true → T x.1 := by
+  unfold splitJs at h
+  cases ho : outer (d.length + 2) d [] [] with
+  | error e => rw [ho] at h; simp at h
+  | ok r =>
+    obtain ⟨chars, parts⟩ := r
+    rw [ho] at h
+    simp only at h
+    have hv0 : Valid ([] : List Nat) ([] : List Bytes).length := ⟨List.Pairwise.nil, by intro c hc; simp at hc⟩
+    obtain ⟨one, ov⟩ := outer_inv _ _ _ _ _ _ (by intro p hp; simp at hp) hv0 ho
+    have osat := outer_sat T hT _ _ _ _ _ _ (by intro p hp; simp at hp) hv0 (by intro c hc; simp at hc) ho
+    cases chars with
+    | nil =>
+      simp only [Except.ok.injEq] at h
+      subst h
+      intro x hx hr
+      have := (List.of_mem_zip hx).2
+      simp only [List.mem_replicate] at this
+      rw [this.2] at hr
+      exact absurd hr (by simp)
+    | cons c0 rest =>
+      simp only [Except.ok.injEq] at h
+      subst h
+      simp only
+      obtain ⟨hc0, hv1, hlast, hv2⟩ := header_footer_valid c0 rest parts ov
+      -- CharsSat survives cutting the header and the footer
+      have hs2 : CharsSat T ((c0 :: rest).map (· - c0))
+          ((parts.drop c0).take (((c0 :: rest).map (· - c0)).getLast?.getD 0 + 1)) := by
         intro c hc
-        have h1 := hlast c hc
-        have hmem : ((c0 :: rest).map (· - c0)).getLast?.getD 0 ∈ (c0 :: rest).map (· - c0) := by
-          generalize hl : (c0 :: rest).map (· - c0) = l
-          have hlne : l ≠ [] := by rw [← hl]; simp
-          rw [List.getLast?_eq_getLast hlne]
-          simp only [Option.getD_some]
-          exact List.getLast_mem hlne
-        have h2 := hv1.2 _ hmem
-        rw [List.length_take]
-        omega
-      exact (mergeLoop_inv _ 0 _ _ (ne_take _ _ (ne_drop _ _ one)) hv2).1
+        have hle := hlast c hc
+        obtain ⟨y, hy, rfl⟩ := List.mem_map.mp hc
+        have hy0 := hc0 y hy
+        rw [List.getElem?_take_of_lt (by omega), List.getElem?_drop]
+        have : c0 + (y - c0) = y := by omega
+        rw [this]
+        exact osat y hy
+      have msat := mergeLoop_sat T ((c0 :: rest).map (· - c0)).length 0 _ _ hv2 hs2
+      generalize mergeLoop ((c0 :: rest).map (· - c0)).length 0
+        ((parts.drop c0).take (((c0 :: rest).map (· - c0)).getLast?.getD 0 + 1)) ((c0 :: rest).map (· - c0)) = m at msat ⊢
+      intro x hx hr
+      obtain ⟨k, hk, rfl⟩ := List.mem_iff_getElem.mp hx
+      simp only [List.length_zip, List.length_map, List.length_range, Nat.min_self] at hk
+      simp only [List.getElem_zip, List.getElem_map, List.getElem_range] at hr ⊢
+      have hmem : k ∈ m.2 := by simpa using hr
+      have := msat k hmem
+      rw [List.getElem?_eq_getElem hk] at this
+      exact this
+
+/-! ### what a token is -/
+
+/-- one string character or one complete escape sequence -/
+def IsTok (p : Bytes) : Prop :=
+  (∃ c, p = [c] ∧ c ≠ 0x5C) ∨
+  (∃ a b c d, p = [0x5C, 0x75, a, b, c, d] ∧ isHex a = true ∧ isHex b = true ∧ isHex c = true ∧ isHex d = true) ∨
+  (∃ a b, p = [0x5C, 0x78, a, b] ∧ isHex a = true ∧ isHex b = true) ∨
+  (∃ hs, hs ≠ [] ∧ (∀ h ∈ hs, isHex h = true) ∧ p = [0x5C, 0x75, 0x7B] ++ hs ++ [0x7D]) ∨
+  (∃ c, p = [0x5C, c]) ∨
+  p = [0x5C]      -- a backslash that is the very last byte of the data
+
+theorem takeWhile_all' {α} (p : α → Bool) (l : List α) : ∀ b ∈ l.takeWhile p, p b = true := by
+  induction l with
+  | nil => intro b hb; simp at hb
+  | cons a t ih =>
+    intro b hb
+    simp only [List.takeWhile_cons] at hb
+    split at hb
+    · rename_i ha
+      simp only [List.mem_cons] at hb
+      rcases hb with rfl | hb
+      · exact ha
+      · exact ih b hb
+    · simp at hb
+
+theorem take_length_takeWhile' {α} (p : α → Bool) (l : List α) : l.take (l.takeWhile p).length = l.takeWhile p := by
+  induction l with
+  | nil => rfl
+  | cons a t ih =>
+    simp only [List.takeWhile_cons]
+    split
+    · simp [ih]
+    · simp
+
+theorem tokLen_take_tok (d : Bytes) (h : tokLen d ≠ 0) : IsTok (d.take (tokLen d)) := by
+  cases d with
+  | nil => simp [tokLen] at h
+  | cons c rest =>
+    unfold tokLen
+    simp only
+    by_cases hc : (c != 0x5C) = true
+    · rw [if_pos hc]
+      left
+      exact ⟨c, by simp, by simpa using hc⟩
+    · rw [if_neg hc]
+      have hc' : c = 0x5C := by simpa using hc
+      subst hc'
+      by_cases hu4 : isU4 rest = true
+      · rw [if_pos hu4]
+        right; left
+        unfold isU4 at hu4
+        split at hu4
+        · rename_i a b c d tl
+          simp only [Bool.and_eq_true] at hu4
+          exact ⟨a, b, c, d, by simp, hu4.1.1.1, hu4.1.1.2, hu4.1.2, hu4.2⟩
+        · exact absurd hu4 (by simp)
+      · rw [if_neg hu4]
+        by_cases hx2 : isX2 rest = true
+        · rw [if_pos hx2]
+          right; right; left
+          unfold isX2 at hx2
+          split at hx2
+          · rename_i a b tl
+            simp only [Bool.and_eq_true] at hx2
+            exact ⟨a, b, by simp, hx2.1, hx2.2⟩
+          · exact absurd hx2 (by simp)
+        · rw [if_neg hx2]
+          cases hub : uBrace rest with
+          | some k =>
+            simp only
+            right; right; right; left
+            unfold uBrace at hub
+            split at hub
+            · rename_i r2
+              simp only at hub
+              split at hub
+              · exact absurd hub (by simp)
+              · rename_i hne
+                split at hub
+                · rename_i tl hdrop
+                  injection hub with hub
+                  subst hub
+                  refine ⟨r2.takeWhile isHex, by intro h0; rw [h0] at hne; simp at hne, takeWhile_all' _ _, ?_⟩
+                  have h1 : (0x5C :: 0x75 :: 0x7B :: r2).take ((r2.takeWhile isHex).length + 4)
+                      = 0x5C :: 0x75 :: 0x7B :: r2.take ((r2.takeWhile isHex).length + 1) := by simp
+                  rw [h1, List.take_add, take_length_takeWhile', hdrop]
+                  simp
+                · exact absurd hub (by simp)
+            · exact absurd hub (by simp)
+          | none =>
+            simp only
+            by_cases he : rest.isEmpty = true
+            · rw [if_pos he]
+              right; right; right; right; right
+              have : rest = [] := by simpa using he
+              subst this
+              rfl
+            · rw [if_neg he]
+              right; right; right; right; left
+              cases rest with
+              | nil => simp at he
+              | cons x tl => exact ⟨x, by simp⟩
+
+/-- every reducible atom of the JS-string splitter is one character or one complete escape -/
+theorem splitJs_tokens (d : Bytes) (s : Load.Split) (h : splitJs d = .ok s) :
+    ∀ x ∈ s.parts.zip s.reducible, x.2 = true → IsTok x.1 :=
+  splitJs_sat IsTok tokLen_take_tok d s h
 
 end Js
